@@ -10,7 +10,7 @@ BOUNDED = {"C01": "end-to-end exerciser over loopback TCP", "C02": "dispatcher c
            "C10": "pool schedules under a deterministic scheduler", "C11": "pool schedules under a deterministic scheduler",
            "C12": "lifecycle histories and concurrent clients", "C13": "dispatcher corpus",
            "C15": "plain nestings and descriptor shapes", "C16": "FutureResult schedules under a deterministic scheduler",
-           "C17": "framing harness", "C18": "header-stack enumeration", "C20": "handler tables and ignore lists on generated shapes"}
+           "C14": "message harness on the enumerated argument space", "C17": "framing harness", "C19": "fault sequences against a scripted peer", "C18": "header-stack enumeration", "C20": "handler tables and ignore lists on generated shapes"}
 checks = []
 for pid in ALL:
     c = CLAIMED.get(pid)
